@@ -89,6 +89,24 @@ func (c *Chan[T]) Send(v T) {
 	c.doSend(v)
 }
 
+// SendOK is Send for harness objects: it reports false instead of panicking
+// when the channel is (or becomes, while waiting) closed.
+func (c *Chan[T]) SendOK(v T) bool {
+	if s == nil || Dying() {
+		if c != nil && !c.closed {
+			c.buf = append(c.buf, v)
+			return true
+		}
+		return false
+	}
+	Point(&Op{Kind: "send", Obj: c.nameOf(), Enabled: c.canSend})
+	if Dying() || c.closed {
+		return false
+	}
+	c.doSend(v)
+	return true
+}
+
 func (c *Chan[T]) nameOf() string {
 	if c == nil {
 		return "nil-chan"
@@ -260,6 +278,17 @@ func (c *Chan[T]) CloseNoPoint() {
 	if c != nil {
 		c.closed = true
 	}
+}
+
+// RecvNoPoint takes a buffered value without a scheduling point.
+func (c *Chan[T]) RecvNoPoint() (T, bool) {
+	var zero T
+	if c == nil || len(c.buf) == 0 {
+		return zero, false
+	}
+	v := c.buf[0]
+	c.buf = c.buf[1:]
+	return v, true
 }
 
 // SendNoPoint appends to the buffer if there is room (timer/ticker delivery).
